@@ -495,6 +495,11 @@ void count_min_sketch<W,A>::check_header_validity(uint8_t preamble_longs, uint8_
   }
 }
 
+template<typename W, typename A>
+auto count_min_sketch<W,A>::get_allocator() const -> allocator_type {
+  return _allocator;
+}
+
 } /* namespace datasketches */
 
 #endif
